@@ -27,6 +27,8 @@ func runC18(c *Ctx) {
 	c.Rule("C18.W3", "flow.available = min(stream, connection); take debits both", 3)
 	c.Rule("C18.W4", "every raise of a send window (and every stream removal) is followed by cond.Broadcast() before the handler returns", 5)
 	defer c18Wake(c, "pkg/module/http2")
+	c.Rule("C18.W5", "a WINDOW_UPDATE credits the window it names: the connection window only for stream id 0", 2)
+	defer c18CreditTarget(c, "pkg/module/http2")
 	c.NotDecided = append(c.NotDecided, "wire compatibility of frames and HPACK with golang.org/x/net/http2 (value-level)", "behaviour under concrete WINDOW_UPDATE schedules (liveness of the wait)", "SETTINGS handling that updates maxFrameSize / initial window")
 	c.Assumptions = append(c.Assumptions, "sync.Cond.Wait releases and re-acquires the mutex it was created with")
 
